@@ -29,6 +29,11 @@ pub struct Case {
     pub metas: Vec<(String, String)>,
     pub comments: Vec<String>,
     pub cli: bool,
+    /// how the program-level round trip passes k_exp and the area: 0 = again as options on the second run
+    /// (any value); 1 = values the emitted metadata can hold exactly (one / two decimals), second run without
+    /// options; 2 = as 1, and the input file repeats the CTE_* metadata keys with conflicting values
+    #[serde(default)]
+    pub cli_mode: u8,
 }
 
 fn comment_s() -> BoxedStrategy<String> {
@@ -111,15 +116,43 @@ pub fn same_components(a: &Components, b: &Components, n: usize) -> Result<f64, 
     Ok(print_err)
 }
 
-fn user_comments(c: &Components) -> Vec<String> {
-    let mut v: Vec<String> = c
-        .data
-        .iter()
-        .map(|e| e.comment().to_string())
-        .filter(|s| !s.is_empty() && !s.starts_with("Equilibrado de consumo") && !s.starts_with("Reasignación automática"))
-        .collect();
-    v.sort();
-    v
+/// multiset of the non-empty comments of the components
+fn comment_counts(c: &Components) -> BTreeMap<String, usize> {
+    let mut m = BTreeMap::new();
+    for e in c.data.iter() {
+        let s = e.comment().to_string();
+        if !s.is_empty() {
+            *m.entry(s).or_insert(0usize) += 1;
+        }
+    }
+    m
+}
+
+/// The user's comments must survive the round trip; the comments the program writes on the components it
+/// generates itself (completion, re-assigned auxiliaries) may repeat. Which texts are the program's own is
+/// decided by behaviour, not by wording: a text that the parsed components carry more often than the input
+/// file does was written by the program.
+fn comments_survive(input: &crate::gen::Building, parsed: &Components, back: &Components) -> CheckResult {
+    let mut given: BTreeMap<String, usize> = BTreeMap::new();
+    for l in &input.lines {
+        let s = l.comment.trim().to_string();
+        if !s.is_empty() {
+            *given.entry(s).or_insert(0usize) += 1;
+        }
+    }
+    let (c1, c2) = (comment_counts(parsed), comment_counts(back));
+    let own = |s: &String| c1.get(s).cloned().unwrap_or(0) > given.get(s).cloned().unwrap_or(0);
+    let mut keys: Vec<&String> = c1.keys().chain(c2.keys()).collect();
+    keys.sort();
+    keys.dedup();
+    for s in keys {
+        if own(s) {
+            continue;
+        }
+        let (a, b) = (c1.get(s).cloned().unwrap_or(0), c2.get(s).cloned().unwrap_or(0));
+        ensure!(a == b, "comments_round_trip", "comment `{}` is on {} components before and on {} after writing and reading back", s, a, b);
+    }
+    Ok(())
 }
 
 pub fn same_factors(a: &Factors, b: &Factors) -> CheckResult {
@@ -160,9 +193,16 @@ impl Prop for C18 {
         p.env_heavy = true;
         p.huge_kwh = 100_000;
         p.fine = false;
-        let cli_p = tier.pick(0.012, 0.02);
-        (bf_case(p, 50), layout_s(), vec(meta_s(), 0..3), vec(comment_s(), 0..10), prop::bool::weighted(cli_p))
-            .prop_map(|(base, layout, metas, comments, cli)| Case { base, layout, metas, comments, cli })
+        let cli_p = tier.pick(0.03, 0.03);
+        (bf_case(p, 50), layout_s(), vec(meta_s(), 0..3), vec(comment_s(), 0..10), prop::bool::weighted(cli_p), (0u8..3, any::<u8>()))
+            .prop_map(|(base, layout, mut metas, comments, cli, (cli_mode, dupsel))| {
+                // one metadata list in eight repeats its first key with another value (both lines are data)
+                if dupsel % 8 == 0 && !metas.is_empty() {
+                    let (k, v) = metas[0].clone();
+                    metas.push((k, format!("{} bis", v).trim().to_string()));
+                }
+                Case { base, layout, metas, comments, cli, cli_mode }
+            })
             .boxed()
     }
     fn describe(c: &Case) -> Value {
@@ -171,6 +211,7 @@ impl Prop for C18 {
     }
     fn check(c: &Case, ctx: &mut Ctx) -> CheckResult {
         let e = effective(c);
+        crate::common::label_long(ctx, &e.b);
         let n = e.b.n;
         let text = render_layout(&e.b, &c.layout);
         let comps: Components = match text.parse() {
@@ -203,8 +244,8 @@ impl Prop for C18 {
             }
         }
         let print_err = same_components(&comps, &back, n)?;
-        let (c1, c2) = (user_comments(&comps), user_comments(&back));
-        ensure!(c1 == c2, "comments_round_trip", "user comments {:?} become {:?}", c1, c2);
+        comments_survive(&e.b, &comps, &back)?;
+        let c1: Vec<&str> = e.b.lines.iter().map(|l| l.comment.as_str()).filter(|s| !s.is_empty()).collect();
         // factors
         let f = prepare_sound(&e.f)?;
         let fback: Factors = match f.to_string().parse() {
@@ -270,12 +311,13 @@ impl Prop for C18 {
             (Err(x), Ok(_)) => fail!("same_evaluation", "the original cannot be evaluated ({}) but the read-back pair can", x),
         }
         if c.cli {
-            check_cli(&e, &text, ctx)?;
+            check_cli(&e, &text, c.cli_mode, ctx)?;
+            ctx.label(format!("cli_mode_{}", c.cli_mode));
             ctx.label("cli_run");
         }
         // classification
         let has_aux_multi = e.b.tags.iter().any(|t| t == "sys:aux_multi");
-        let completion = comps.data.iter().any(|x| x.comment().starts_with("Equilibrado de consumo"));
+        let completion = crate::common::completion_happened(&e.b, &comps);
         let legacy = c.layout.omit_id0 && e.b.lines.iter().any(|l| l.id == 0 && !matches!(l.kind, Kind::Out { .. }));
         let has_comment = !c1.is_empty();
         if legacy {
@@ -295,13 +337,36 @@ impl Prop for C18 {
 }
 
 /// cteepbd --oc a --of b, then cteepbd -c a -f b: same report numbers
-pub fn check_cli(e: &BFCase, text: &str, ctx: &mut Ctx) -> CheckResult {
+pub fn check_cli(e: &BFCase, text: &str, mode: u8, ctx: &mut Ctx) -> CheckResult {
     // the emitted metadata record the area with two decimals: below 0.01 m2 the emitted value is
     // 0.00 and the program refuses its own file (precision of the metadata, see DESIGN section 5)
     if e.area < 0.01 {
         ctx.skip("cli_area_below_metadata_precision");
         return Ok(());
     }
+    // modes 1 and 2: k_exp and area are values the emitted metadata hold exactly, and the second run gets
+    // them from there ("a building evaluated from the files saved with --oc / --of gives the same results")
+    let mut e = e.clone();
+    let mut text = text.to_string();
+    if mode >= 1 {
+        e.k = format!("{:.1}", e.k).parse::<f32>().unwrap();
+        e.area = format!("{:.2}", e.area).parse::<f32>().unwrap().max(0.01);
+    }
+    if mode >= 2 {
+        // conflicting repeated keys (files stitched together from several sources); the options of the first
+        // run win whatever the program makes of repeated keys, and the emitted file must say so to a reader
+        let mut dup = format!("#META CTE_AREAREF: {:.2}\n#META CTE_AREAREF: {:.2}\n#META CTE_KEXP: {:.1}\n#META CTE_KEXP: {:.1}\n", e.area + 7.5, e.area * 3.0 + 1.0, 1.0 - e.k, if e.k < 0.5 { 0.7 } else { 0.2 });
+        let has_user_red1 = matches!(&e.f, FactorCase::Regulatory { red1: Some(_), .. } | FactorCase::UserFile { red1: Some(_), .. });
+        if has_user_red1 {
+            dup.push_str("#META CTE_RED1: 0.111, 0.222, 0.333\n#META CTE_RED1: 0.900, 0.800, 0.700\n");
+        }
+        text = match text.strip_prefix('\u{feff}') {
+            Some(rest) => format!("\u{feff}{}{}", dup, rest),
+            None => format!("{}{}", dup, text),
+        };
+    }
+    let e = &e;
+    let text = text.as_str();
     let mut args: Vec<String> = vec!["-c".into(), "comp.csv".into(), format!("--kexp={}", f32_text(e.k)), format!("--arearef={}", f32_text(e.area))];
     let mut files = vec![("comp.csv".to_string(), text.as_bytes().to_vec())];
     let (red1, red2) = match &e.f {
@@ -338,7 +403,11 @@ pub fn check_cli(e: &BFCase, text: &str, ctx: &mut Ctx) -> CheckResult {
         let b = run1.file("b.csv").ok_or_else(|| Failure::new("cli_files", "--of file was not written"))?;
         // second run from the emitted files only (k_exp and area come from the emitted metadata,
         // at their printed precision: pass them again as options to compare like with like)
-        let mut args2: Vec<String> = vec!["-c".into(), "a.csv".into(), "-f".into(), "b.csv".into(), format!("--kexp={}", f32_text(e.k)), format!("--arearef={}", f32_text(e.area))];
+        let mut args2: Vec<String> = vec!["-c".into(), "a.csv".into(), "-f".into(), "b.csv".into()];
+        if mode == 0 {
+            args2.push(format!("--kexp={}", f32_text(e.k)));
+            args2.push(format!("--arearef={}", f32_text(e.area)));
+        }
         if e.lm {
             args2.push("--load_matching".into());
         }
@@ -346,6 +415,12 @@ pub fn check_cli(e: &BFCase, text: &str, ctx: &mut Ctx) -> CheckResult {
         let r = (|| -> CheckResult {
             ensure!(!run2.timed_out && run2.signal.is_none() && !run2.stderr.contains("panicked at"), "cli_crash", "second run: {}", run2.summary());
             ensure!(run2.status == Some(0), "cli_rerun_status", "cteepbd fails on the files it emitted itself: {}", run2.summary());
+            if mode >= 1 {
+                for (prefix, want) in [("Área de referencia (", format!("Área de referencia (metadatos) [m2]: {:.2}", e.area)), ("Factor de exportación (", format!("Factor de exportación (metadatos) [-]: {:.1}", e.k))] {
+                    let got = run2.stdout.lines().find(|l| l.starts_with(prefix)).unwrap_or("");
+                    ensure!(got == want, "cli_recorded_parameters", "the run on the emitted files prints `{}`; the original run used `{}`", got, want);
+                }
+            }
             // RER lines compared only when they are far from 0/0 (a total within printing error of
             // zero makes them ratios of residues)
             let rep = |s: &str| -> Option<String> { s.find("** Eficiencia energética").map(|i| s[i..].lines().filter(|l| !l.starts_with("RER")).collect::<Vec<_>>().join("\n")) };
